@@ -227,6 +227,13 @@ def generate(seed, tier):
         # a fifth of the bound runs go through a real file-like object (io.StringIO / io.BytesIO) instead of the
         # simulated stream: code that treats genuine io objects specially (readline, readinto, peek) is only reachable there
         case['via'] = 'io' if r.random() < 0.3 else 'sim'
+        if r.random() < 0.012 and form != 'utf16le':
+            # a stream of several MiB made of thousands of small documents: the look-ahead must not grow with the
+            # offset or with the number of documents already delivered
+            unit = '--- {n: %d, w: %s}\n# %s\n' % (rd.randint(0, 99), rd.choice(WORDS[:10]), 'c' * rd.choice([1000, 2000, 3900]))
+            parts = [{'kind': 'doc', 'text': unit, 'ended': False, 'repeat': int(rd.choice([2.6e6, 3.4e6, 4.3e6]) / len(unit))}]
+            case['via'] = 'sim'
+            case['huge'] = True
         if case['via'] == 'io' and form != 'text' and r.random() < 0.4:
             case['via'] = 'rawio'        # an unbuffered binary file object (io.RawIOBase): nobody may put a big buffer in front of it
         if case['via'] == 'io' and r.random() < 0.6 and len(parts) >= 2:
@@ -291,6 +298,8 @@ def generate(seed, tier):
     else:
         sched = {'sizes': [rs.choice([1, blk]) for _ in range(60)], 'then': None}
     case.update(sizes=sched['sizes'], then=sched['then'])
+    if case.get('huge'):
+        case.update(sizes=[], then=None)        # the stream hands out whatever is asked for
     return case
 
 
@@ -298,7 +307,7 @@ def describe(case):
     d = {k: case.get(k) for k in ('mode', 'api', 'backend', 'form', 'loader', 'malformed', 'abandon', 'then')}
     d['sizes_head'] = (case.get('sizes') or [])[:10]
     d['parts'] = [[p['kind'], len(p['text']), p['text'][:40]] for p in case['parts'][:8]]
-    d['total_chars'] = sum(len(p['text']) for p in case['parts'])
+    d['total_chars'] = sum(len(p['text']) * p.get('repeat', 1) for p in case['parts'])
     return d
 
 
@@ -380,7 +389,7 @@ def execute(case):
         out['extra']['c_backend_not_run'] = 1
         out['log'] = 'no-c'
         return out
-    text = ''.join(p['text'] for p in case['parts'])
+    text = ''.join(p['text'] * p.get('repeat', 1) for p in case['parts'])
     form, api, backend = case['form'], case['api'], case['backend']
     blk = BLOCK[backend]
     L = loader_for(yaml, case)
